@@ -44,7 +44,7 @@ ASSUMPTIONS = [
     "the gateway of parts B/C never sends; its write-spacing task is slowed down (MIN_INTER_WRITE_GAP patched) so that days of virtual time are affordable",
     "an attribute is read twice with a loop drain in between when judging 'reads as unknown' (see the recorded finding on the first read after expiry)",
 ]
-REQUIRED = {"A.messages": 300, "A.points": 3000, "A.1F09": 50, "B.packets": 500, "B.compared": 2000, "C.live_checks": 50, "C.aged_checks": 50, "D.live_checks": 300, "D.aged_checks": 30, "B.restarts": 5, "B.compared_after_restart": 100}
+REQUIRED = {"A.messages": 300, "A.points": 3000, "A.1F09": 50, "B.packets": 500, "B.compared": 2000, "C.live_checks": 50, "C.aged_checks": 50, "D.live_checks": 300, "D.aged_checks": 30, "B.restarts": 5, "B.compared_after_restart": 100, "E.compared": 200, "E.aged_checks": 20}
 
 CTL, GWY_ID = "01:145038", "18:006402"
 EPS = 0.01
@@ -521,8 +521,126 @@ async def part_d(loop: vloop.VirtualLoop, ctx, trial: int) -> None:
     air.close()
 
 
+async def part_e(loop: vloop.VirtualLoop, ctx, trial: int, tzname: str) -> None:
+    """The MQTT gateway (ramses_esp): frames arrive in '{ts, msg}' envelopes whose ts is timezone-aware (UTC).  On a
+    host that is not on UTC the value must still be fresh when it has just arrived, and age out when its time has come."""
+    import datetime as _dtm
+    import json as _json
+    import random
+
+    from ramses_rf import Gateway
+
+    from .boundary import FakeMqttClient, mqtt_patched
+
+    rng = random.Random(f"C14e/{ctx.seed}/{trial}")
+    ep = {"seed": ctx.seed, "trial": trial, "part": "E", "TZ": tzname}
+    world = World(rng, 2)
+    topic = f"RAMSES/GATEWAY/{GWY_ID}"
+    VDT = vloop.make_virtual_datetime(vloop.current)
+    with mqtt_patched():
+        n0 = len(FakeMqttClient.instances)
+        gwy = Gateway("mqtt://u:p@127.0.0.1:1883", config={"disable_discovery": True}, **world.schema())
+
+        def online() -> None:
+            if len(FakeMqttClient.instances) > n0:
+                FakeMqttClient.instances[-1].deliver(topic, b"online")
+            else:
+                loop.call_later(0.01, online)
+
+        loop.call_later(0.01, online)
+        await asyncio.wait_for(gwy.start(), timeout=30)
+        client = FakeMqttClient.instances[-1]
+
+        def rx(frame: str) -> None:
+            now_local = VDT.now()  # the host's (virtual) wall clock, naive local time like everything in the library
+            ts = now_local.replace(tzinfo=None).astimezone().astimezone(_dtm.timezone.utc).isoformat(timespec="microseconds")
+            client.deliver(topic + "/rx", _json.dumps({"ts": ts, "msg": f"045 {frame}"}).encode())
+
+        rx(f" I --- {CTL} --:------ {CTL} 1F09 003 FF073F")
+        await asyncio.sleep(0.05)
+        for _ in range(rng.randint(10, 25)):
+            frame, ups = world.step()
+            rx(frame)
+            await asyncio.sleep(rng.choice((0.05, 2.0, 30.0)))
+            await vloop.drain(loop, 6)
+            for key, val, life, form in ups:
+                world.model[key] = (val, loop.time(), life, form)
+            ctx.count("E.packets")
+            for key, (val, vt, life, form) in world.model.items():
+                if life is not None and loop.time() - vt >= life - 1.0:
+                    continue
+                try:
+                    got = read_attr(gwy, world, key)
+                except Exception as err:  # noqa: BLE001
+                    got = f"<raised {type(err).__name__}>"
+                ctx.count("E.compared")
+                if got != val:
+                    ctx.violate(
+                        f"C14|mqtt-timestamps|{'unknown' if got is None else 'stale-or-wrong'}|{key[1]}",
+                        "on the MQTT transport (timezone-aware 'ts', host not on UTC) an attribute does not report the message that has just arrived",
+                        {"attr": list(key), "expected": val, "reported": got, "age_s": round(loop.time() - vt, 3), "lifetime_s": life, "episode": ep},
+                    )
+        # ageing out: past twice the longest lifetime in play
+        t_end = max(vt + 2 * life + 3 + EPS for (val, vt, life, form) in world.model.values() if life is not None)
+        await asyncio.sleep(max(0.0, t_end - loop.time()))
+        for key, (val, vt, life, form) in world.model.items():
+            if life is None:
+                continue
+            got = None
+            for _ in range(4):
+                try:
+                    got = read_attr(gwy, world, key)
+                except Exception:  # noqa: BLE001
+                    got = None
+                if got is None:
+                    break
+                await vloop.drain(loop, 6)
+            ctx.count("E.aged_checks")
+            if got is not None:
+                ctx.violate(
+                    f"C14|mqtt-timestamps|expired-value-lingers|{key[1]}",
+                    "on the MQTT transport (timezone-aware 'ts', host not on UTC) a value is still reported after twice its lifetime",
+                    {"attr": list(key), "reported": got, "age_s": round(loop.time() - vt, 3), "lifetime_s": life, "episode": ep},
+                )
+        ctx.ev()
+        try:
+            await asyncio.wait_for(gwy.stop(), timeout=5)
+        except Exception:  # noqa: BLE001
+            pass
+
+
+def run_part_e(ctx) -> None:
+    import os
+    import time as _time
+
+    old = os.environ.get("TZ")
+    try:
+        for k in range(2 if ctx.quick else 30):
+            trial = ctx.shard + k * ctx.nshards
+            tzname = ("NZST-12", "EST5", "UTC0", "IST-5:30")[trial % 4]  # POSIX TZ strings: fixed offsets, no DST
+            os.environ["TZ"] = tzname
+            _time.tzset()
+            harness.reset_transport_globals()
+
+            async def goe(loop, trial=trial, tzname=tzname):
+                with clocks_patched(transport_dt=True), patch("ramses_tx.transport.MIN_INTER_WRITE_GAP", 3600.0):
+                    await part_e(loop, ctx, trial, tzname)
+
+            try:
+                vloop.run(goe)
+            except vloop.Starved as err:
+                ctx.inconclusive_because(f"MQTT timestamp scenario starved the virtual clock: {err}")
+    finally:
+        if old is None:
+            os.environ.pop("TZ", None)
+        else:
+            os.environ["TZ"] = old
+        _time.tzset()
+
+
 def run(ctx) -> None:
     part_a(ctx)
+    run_part_e(ctx)
     for k in range(15 if ctx.quick else 300):
         trial = ctx.shard + k * ctx.nshards
         harness.reset_transport_globals()
@@ -564,9 +682,18 @@ def replay(data: dict[str, Any]) -> int:
         harness.reset_transport_globals()
 
         async def go(loop, ep=ep, ctx=ctx):
-            with clocks_patched(), patch("ramses_tx.transport.MIN_INTER_WRITE_GAP", 3600.0):
-                await (part_d if ep.get("part") == "D" else part_bc)(loop, ctx, ep["trial"])
+            with clocks_patched(transport_dt=ep.get("part") == "E"), patch("ramses_tx.transport.MIN_INTER_WRITE_GAP", 3600.0):
+                if ep.get("part") == "E":
+                    await part_e(loop, ctx, ep["trial"], ep["TZ"])
+                else:
+                    await (part_d if ep.get("part") == "D" else part_bc)(loop, ctx, ep["trial"])
 
+        if ep.get("part") == "E":
+            import os
+            import time as _time
+
+            os.environ["TZ"] = ep["TZ"]
+            _time.tzset()
         vloop.run(go)
         for k, v in ctx.violations.items():
             if k in load_known_keys():
